@@ -398,4 +398,78 @@ example : mshellExecute [0x61#8, 0x20#8, 0x62#8, NUL] [[0x62#8], [0x61#8]]
 -- blank line: tolerated
 example : mshellExecute [0x20#8, 0x09#8, NUL] [[0x61#8]] = some ⟨ENOENT, none⟩ := by decide
 
+
+/-! ## path helpers (NUL-terminated: `p` is the text, then the terminator, then
+whatever else the allocation holds; a read behind the allocation is a fault) -/
+
+/-- `path_next`: NULL iff nothing is left after the leading slashes and single
+dots, else the offset of the first real component and its length -/
+theorem pathNext_spec (p junk : Str) (hn : NUL ∉ p) :
+    pathNext (p ++ NUL :: junk)
+      = some (match skipRef p with
+              | [] => none
+              | c :: r => some (p.length - (c :: r).length, (headComp (c :: r)).length)) :=
+  pathNext_eq p junk hn
+
+/-- component-wise: `path_next` returns NULL iff the path has no component;
+otherwise it points at the first component (`"."` and empty pieces skipped)
+and what follows `path + off + len` has exactly the remaining components —
+walking with `path_next` enumerates `comps p` -/
+theorem pathNext_components (p junk : Str) (hn : NUL ∉ p) :
+    match pathNext (p ++ NUL :: junk) with
+    | none => False
+    | some none => comps p = []
+    | some (some (off, len)) =>
+        ∃ h t, comps p = h :: t ∧ (p.drop off).take len = h ∧ comps (p.drop (off + len)) = t := by
+  rw [pathNext_eq p junk hn]
+  have hc := skipRef_components p
+  have hsuf := skipRef_suffix p
+  cases hr : skipRef p with
+  | nil => rw [hr] at hc; exact hc
+  | cons c r =>
+    rw [hr] at hc hsuf
+    obtain ⟨h, t, h1, h2, h3, h4⟩ := hc
+    obtain ⟨pre, hpre⟩ := hsuf
+    have hoff : p.length - (c :: r).length = pre.length := by rw [← hpre]; simp
+    have hdrop : p.drop pre.length = c :: r := by
+      rw [← hpre]; simp
+    refine ⟨h, t, h1, ?_, ?_⟩
+    · simp only [hoff, hdrop, h2, h3]
+    · simp only [hoff, h2, ← List.drop_drop, hdrop, h4]
+
+/-- `path_iterate`: NULL on the empty path, else the cursor at the next real
+component behind the first piece (a leading slash is a piece of its own) -/
+theorem pathIterate_spec (p junk : Str) (hn : NUL ∉ p) :
+    pathIterate (p ++ NUL :: junk)
+      = some (if p.isEmpty then none else some (iterRef p ++ NUL :: junk)) :=
+  pathIterate_eq p junk hn
+
+/-- `path_compare_node`: lexicographic order (signed `char`) of the two first pieces -/
+theorem compareNode_spec (a ja b jb : Str) (ha : NUL ∉ a) (hb : NUL ∉ b) :
+    compareNode (a ++ NUL :: ja) (b ++ NUL :: jb) = some (lexCmp (headComp a) (headComp b)) :=
+  compareNode_eq a ja b jb ha hb
+
+/-- in particular it returns 0 exactly when the first pieces are equal -/
+theorem compareNode_zero_iff (a ja b jb : Str) (ha : NUL ∉ a) (hb : NUL ∉ b) :
+    compareNode (a ++ NUL :: ja) (b ++ NUL :: jb) = some 0 ↔ headComp a = headComp b := by
+  rw [compareNode_eq a ja b jb ha hb]
+  simp [lexCmp_eq_zero_iff]
+
+/-- `path_remove_prefix`: the cursor into `path` after stepping over the
+leading pieces it shares with `prefix` (never NULL, never a fault) -/
+theorem pathRemovePrefix_spec (p jp q jq : Str) (hp : NUL ∉ p) (hq : NUL ∉ q) :
+    pathRemovePrefix (p ++ NUL :: jp) (q ++ NUL :: jq) = some (removePrefixSpec p q ++ NUL :: jp) := by
+  unfold pathRemovePrefix removePrefixSpec
+  rw [removePrefixLoop_eq _ p jp q jq hp hq (by simp; omega)]
+  congr 2
+  exact removePrefixRef_stable _ _ p q (by simp; omega) (by omega)
+
+/-- the result is a suffix of `path` -/
+theorem removePrefixSpec_suffix (p q : Str) : removePrefixSpec p q <:+ p :=
+  removePrefixRef_suffix _ p q
+
+-- "/a/b" minus "/a/c" = "b" (cf. pathops.remove_prefix_3 of tests/pathops.cpp)
+example : pathRemovePrefix [SLASH, 0x61#8, SLASH, 0x62#8, NUL] [SLASH, 0x61#8, SLASH, 0x63#8, NUL]
+    = some [0x62#8, NUL] := by decide
+
 end Igris.C19
